@@ -116,6 +116,14 @@ def _edited(svg, how):
         p.append(svg.QuadraticBezier(None, (22, 25), (20, 20)))
     elif how == "insert-nostart":
         p.insert(2, svg.Line(None, (6, -1)))
+    elif how == "subpath-reversed":
+        # a subpath view reversed in place (the move and the closes are re-linked by the library)
+        p = svg.Path("M1,1 L3,-2 Q7,5 -4,1.5 z M9,9 C11,-6 0.25,13 -8.5,2.75 L2,2")
+        p.subpath(0).reverse()
+        p.subpath(1).reverse()
+    elif how == "path-reversed":
+        p = svg.Path("M1,1 L3,-2 Q7,5 -4,1.5 z M9,9 C11,-6 0.25,13 -8.5,2.75 A5,8 30 0 1 2,2")
+        p.reverse()
     return p
 
 
@@ -128,6 +136,8 @@ def path_alphabet(svg):
         "path-edit-iadd": lambda: _edited(svg, "iadd"),
         "path-edit-append-nostart": lambda: _edited(svg, "append-nostart"),
         "path-edit-insert-nostart": lambda: _edited(svg, "insert-nostart"),
+        "path-subpath-reversed": lambda: _edited(svg, "subpath-reversed"),
+        "path-reversed": lambda: _edited(svg, "path-reversed"),
         "path-lqc": lambda: svg.Path("M1,1 L3,-2 Q7,5 -4,1.5 C11,-6 0.25,13 -8.5,2.75 z"),
         "path-arcs": lambda: svg.Path("M0,0 A10,5 30 0 1 7,4 a3,6 -45 1 0 -4,1.5 L2,2 Z"),
         "path-2sub": lambda: svg.Path("M0,0 h5 v5 z m8,1 a2,1 0 1 1 0,0.5 l1,1"),
